@@ -797,9 +797,15 @@ def _execute(plan, out, scratch, w, clock, recs):
                       "unclosed file handlers created by the component)"
                       % (opname, len(got), len(want)), step)
 
+    def pristine_record(name):
+        """An ordinary record exactly as logging creates it: no 'message',
+        no 'asctime' -- the formatter under test has to supply them."""
+        return logging.LogRecord(name or "root", 30, "/sim/app.py", 42,
+                                 "hello %s", ("world",), None, func="fn")
+
     def record_dict(name):
-        r = logging.LogRecord(name or "root", 30, "/sim/app.py", 42,
-                              "hello %s", ("world",), None, func="fn")
+        """The model's view of the same record."""
+        r = pristine_record(name)
         r.message = r.getMessage()
         r.asctime = time.strftime(DATEFMT, time.localtime(r.created))
         return r
@@ -928,7 +934,7 @@ def _execute(plan, out, scratch, w, clock, recs):
                                            != "safe-template"):
                     probe("format-with-unknown-field-not-rendered")
                     continue
-                rec = record_dict(lg.get("name"))
+                rec = pristine_record(lg.get("name"))
                 try:
                     got = x.format(rec)
                 except Exception as e:
